@@ -1,6 +1,7 @@
 package redisemu
 
 import (
+	"bytes"
 	"encoding/gob"
 	"fmt"
 	"os"
@@ -219,5 +220,70 @@ func (ds *dataStore) load(fileName string) (err error) {
 	ds.data = data
 	ds.dataObjectNumber = ph.DataObjectNumber
 
+	return
+}
+
+// serializes the value of a hash, set or list key (for DUMP) in the form save() writes it
+func encodeContainerPayload(sk *storeKey) (raw []byte, err error) {
+	var buf bytes.Buffer
+	enc := gob.NewEncoder(&buf)
+
+	if flagHasOne(sk.flags, FLAG_KEY_TYPE_HASH_TABLE) {
+		err = enc.Encode(sk.payload.(*redisDict).toStringTable())
+	} else if flagHasOne(sk.flags, FLAG_KEY_TYPE_SET) {
+		err = enc.Encode(sk.payload.(*redisDict).toKeyTable())
+	} else if flagHasOne(sk.flags, FLAG_KEY_TYPE_LIST) {
+		list := sk.payload.(*storeList)
+		elements := make([][]byte, 0, list.count)
+		for p := list.head; p != nil; p = p.next {
+			elements = append(elements, p.element)
+		}
+		err = enc.Encode(elements)
+	} else {
+		err = fmt.Errorf("not a hash, set or list")
+	}
+
+	raw = buf.Bytes()
+	return
+}
+
+// makes the value of a hash, set or list key (for RESTORE) from what encodeContainerPayload produced
+func decodeContainerPayload(flags bitflags, raw []byte) (payload any, err error) {
+	dec := gob.NewDecoder(bytes.NewReader(raw))
+
+	if flagHasOne(flags, FLAG_KEY_TYPE_HASH_TABLE) {
+		var table map[string]string
+		if err = dec.Decode(&table); err == nil && len(table) > 0 {
+			payload = newRedisDictFromStringTable(table)
+		}
+	} else if flagHasOne(flags, FLAG_KEY_TYPE_SET) {
+		var table map[string]struct{}
+		if err = dec.Decode(&table); err == nil && len(table) > 0 {
+			payload = newRedisDictFromKeyTable(table)
+		}
+	} else if flagHasOne(flags, FLAG_KEY_TYPE_LIST) {
+		var elements [][]byte
+		if err = dec.Decode(&elements); err == nil && len(elements) > 0 {
+			list := &storeList{}
+			for _, element := range elements {
+				if element == nil {
+					element = []byte{}
+				}
+				item := &listItem{prev: list.tail, element: element}
+				if list.head == nil {
+					list.head = item
+				} else {
+					list.tail.next = item
+				}
+				list.tail = item
+			}
+			list.count = len(elements)
+			payload = list
+		}
+	}
+
+	if err == nil && payload == nil {
+		err = fmt.Errorf("not a serialized hash, set or list")
+	}
 	return
 }
